@@ -824,7 +824,14 @@ func (in *inliner) inlineCallStmt0(call *ast.CallExpr, stack map[*ast.FuncDecl]b
 			}
 			if !in.sameNameUnassigned(d, n.Name, call.Args[ai]) {
 				lhs = append(lhs, mk(n.Name))
-				rhs = append(rhs, call.Args[ai])
+				arg := call.Args[ai]
+				// an untyped constant argument takes the parameter's type in the call; in `p := 0` it would become int
+				if tv, ok := in.info.Types[in.orig(arg).(ast.Expr)]; ok && tv.Value != nil {
+					if _, isEllipsis := fld.Type.(*ast.Ellipsis); !isEllipsis {
+						arg = &ast.CallExpr{Fun: &ast.ParenExpr{X: in.clone(fld.Type).(ast.Expr)}, Lparen: pos, Args: []ast.Expr{arg}, Rparen: pos}
+					}
+				}
+				rhs = append(rhs, arg)
 			}
 			ai++
 		}
